@@ -60,6 +60,11 @@ func LocalMutations(fn *ssa.Function, root ssa.Value) []Mutation {
 					if alias(c.Args[0]) {
 						out = append(out, Mutation{in, "delete " + Expr(c.Args[0]) + "[" + Expr(c.Args[1]) + "]"})
 					}
+				case name == "DeepCopyInto" && len(c.Args) == 2:
+					// x.DeepCopyInto(dst) overwrites *dst with a copy of x
+					if alias(c.Args[1]) {
+						out = append(out, Mutation{in, "DeepCopyInto(target)"})
+					}
 				case strings.HasPrefix(k, KUnstructured) || strings.HasPrefix(k, KMetaObject) || strings.HasPrefix(k, "k8s.io/apimachinery/pkg/apis/meta/v1.ObjectMeta."):
 					if isSetterName(name) && alias(cs.Recv()) {
 						out = append(out, Mutation{in, name})
